@@ -99,6 +99,10 @@ func (purityStream) Generate(rng *rand.Rand, tier string, emit func(Case)) {
 				case 2:
 					nd.Permissions = "rw"
 				}
+				if rng.Intn(2) == 0 {
+					m := []os.FileMode{0o660, 0o20660, 0o100644, os.ModeCharDevice | 0o600, 0o7777}[rng.Intn(5)]
+					nd.FileMode = &m
+				}
 				e.DeviceNodes = []*specs.DeviceNode{nd}
 			}
 			if rng.Intn(3) == 0 {
